@@ -83,6 +83,16 @@ def make_cases(tier, seed, n_random=None, maxlen=None):
                 continue
             cases.append(dict(kind="eos", name=name, g=g, sr=sr, rename=["id", "tuple", "rev"][(i + k) % 3],
                               order=common.perm(len(g.rules), rng), maxlen=min(bound(tier, g, maxlen), 4), eos=[None, "$"][(i + k) % 2]))
+    # one large strongly connected component that converges slowly (ratio 0.9 around a ring of 150 nonterminals, rules listed against
+    # the agenda's LIFO order): tens of thousands of agenda pops, still far inside the default budget - the fixed point must be reached,
+    # not abandoned (strengthened after seeded change C20-6)
+    from fractions import Fraction as F
+    from vlib.spec.cfgspec import G
+    K = 150
+    ring = []
+    for i in range(K - 1, -1, -1):
+        ring += [(F(9, 10), f"N{i}", ("a", f"N{(i + 1) % K}")), (F(1, 5), f"N{i}", ("b",))]
+    cases.append(dict(kind="norm", name="ring150", g=G("N0", frozenset("ab"), ring), sr="Float", rename="id", order=None, maxlen=2))
     # grammars whose own symbols are spelled like the library's internal start-symbol prefix '<START>' (the new start symbol must be
     # fresh whatever the user's names are) - strengthened after the independently seeded change C20-2
     for i, (name, g) in enumerate(doms[:50]):
